@@ -55,7 +55,26 @@ namespace
         vf::Ctx c;
         size_t mode = s.weighted({8, 2});
         r.kind = (int)mode;
-        unsigned seed = 1 + (unsigned)s.u(0, 1000000);
+        // "for every seed": mostly ordinary values, sometimes the boundaries of the seed type (0 is documented to be replaced by 1;
+        // std::uint_fast32_t is 64 bits wide here)
+        std::uint_fast32_t seed;
+        switch (s.weighted({12, 1, 1, 1, 1}))
+        {
+            case 0:
+                seed = 1 + (std::uint_fast32_t)s.u(0, 1000000);
+                break;
+            case 1:
+                seed = 0;
+                break;
+            case 2:
+                seed = 0xFFFFFFFFull;
+                break;
+            case 3:
+                seed = 0x100000000ull + (std::uint_fast32_t)s.u(0, 1000);
+                break;
+            default:
+                seed = ((std::uint_fast32_t)s.be(4) << 32) | (std::uint_fast32_t)s.be(4);
+        }
         ompl::RNG::setSeed(seed);
         if (mode == 1)
         {
@@ -173,7 +192,7 @@ namespace
         long calls = ptc.calls->load();
         h = vf::fnv1a(&calls, sizeof calls, h);
         r.digest = h;
-        snprintf(r.what, sizeof r.what, "%s on %s, seed %u, budget %ld, %zu obstacles", pi.name, P->ps.name().c_str(), seed, budget, P->env.obs.size());
+        snprintf(r.what, sizeof r.what, "%s on %s, seed %llu, budget %ld, %zu obstacles", pi.name, P->ps.name().c_str(), (unsigned long long)seed, budget, P->env.obs.size());
         for (void *p : keep)
             free(p);
         return r;
